@@ -41,6 +41,17 @@ Theorem C17_sender_nak_fails : forall done b rest answer more, answer <> secsi_A
 Proof. exact sender_nak_fails. Qed.
 Print Assumptions C17_sender_nak_fails.
 
+(* "started only after EOT" (D50): whatever the peer sends instead of EOT - NAK, its own ENQ, noise - nothing but ENQ goes out;
+   each such byte is answered by announcing the block again, and the block follows the EOT *)
+Theorem C17_block_only_after_eot : forall blocks answers, forallb (fun a => negb (a =? secsi_EOT)) answers = true ->
+  forall chunk, In chunk (fst (stx blocks answers)) -> chunk = [secsi_ENQ].
+Proof. exact block_only_after_eot. Qed.
+Print Assumptions C17_block_only_after_eot.
+Theorem C17_block_follows_eot : forall blk rest junk more, forallb (fun a => negb (a =? secsi_EOT)) junk = true ->
+  exists sent res, stx (blk :: rest) (junk ++ secsi_EOT :: more) = (([secsi_ENQ] :: repeat [secsi_ENQ] (length junk)) ++ blk :: sent, res).
+Proof. exact block_follows_eot. Qed.
+Print Assumptions C17_block_follows_eot.
+
 (* KNOWN FINDING C17-length-byte: the statement's "all positions of a corrupted byte" includes the length byte.  A length byte
    that was RAISED in transit makes the receiver wait for bytes that are not coming: it answers EOT and then nothing - no NAK
    (the library has no T1/T2 timers); whatever the sender transmits next is swallowed into the pending block. *)
